@@ -109,6 +109,10 @@ def run(ctx):
     check_enqueue_callers(ctx, pool, run_f, cl, rule='R3')
     from .c09 import check_reinit
     check_reinit(ctx, pool, 'R2')
+    # the counter that keeps the event loop alive is only moved by the three paired updates (shared with C07.R7): one more decrement and the loop ends with
+    # results of live workers unread - PoolError although a worker is alive, or a stale result handed to the next run
+    from .c07 import check_frame
+    check_frame(ctx, pool, cl, 'R2')
     check_redistribution(ctx, cl, 'R1')
     from .c07 import check_enqueue_verdict
     check_enqueue_verdict(ctx, pool, cl, N, 'R1')
